@@ -12,10 +12,12 @@ ROOT = os.path.dirname(os.path.dirname(os.path.abspath(__file__)))
 REPO = os.environ.get('VERIF_REPO', '/repo')
 
 
-def run(props, timeout=900):
+def run(props, timeout=900, only=None):
     files = []
     for p in props:
         files += sorted(glob.glob(os.path.join(ROOT, 'witness', p, '*.rs')))
+    if only is not None:
+        files = [os.path.join(ROOT, f) for f in only]
     res = {'props': props, 'files': [os.path.relpath(f, ROOT) for f in files], 'ran': 0, 'passed': 0, 'failed': [], 'inconclusive': None, 'wall_s': 0}
     if not files:
         return res
